@@ -576,6 +576,7 @@ func TestVerifC11(t *testing.T) {
 	c11GLinet(rep, up, routes, methods)
 	c11UnusableHashes(rep, up)
 	c11SameConnection(rep, up, routes, methods)
+	c11LoginContentType(rep, up)
 	c11BlockedAddress(rep, up, routes, methods)
 	c11ExpiryAfterRestart(rep, up)
 	c11Shutdown(rep, up)
@@ -777,6 +778,68 @@ func c11BrokenSessionsDB(rep *verifkit.Report, up *sysUpstream, routes []string,
 			rep.Violate("unauthenticated-not-refused:session-db-unopenable", fmt.Sprintf("with an unopenable session database the server came up and %s %s without credentials answered %d", m, route, r.Status),
 				map[string]any{"route": route, "status": r.Status, "body_head": sysTail(r.Body, 200)})
 		}
+	}
+}
+
+// c11LoginContentType: the login call changes state (it creates a session), so
+// like every state-changing endpoint it takes only its declared method and a
+// JSON content type - also when the credentials in the body are right.
+func c11LoginContentType(rep *verifkit.Report, up *sysUpstream) {
+	in, err := sysStart("", sysConfOpts{UpstreamPort: up.Port})
+	if err != nil {
+		rep.Inconcl("login-content-type phase start: " + err.Error())
+
+		return
+	}
+	defer func() {
+		in.Kill()
+		_ = os.RemoveAll(in.Dir)
+	}()
+	body := fmt.Sprintf(`{"name":%q,"password":%q}`, sysUser, sysPass)
+	form := "name=" + sysUser + "&password=" + sysPass
+	try := func(method, ctype, b string) (status int, cookie string) {
+		hc := &http.Client{Timeout: 10 * time.Second, CheckRedirect: func(*http.Request, []*http.Request) error { return http.ErrUseLastResponse }}
+		req, _ := http.NewRequest(method, fmt.Sprintf("http://127.0.0.1:%d/control/login", in.WebPort), strings.NewReader(b))
+		if ctype != "" {
+			req.Header.Set("Content-Type", ctype)
+		}
+		resp, rerr := hc.Do(req)
+		if rerr != nil {
+			return 0, ""
+		}
+		defer resp.Body.Close()
+		for _, c := range resp.Cookies() {
+			if c.Name == "agh_session" && c.Value != "" {
+				cookie = c.Value
+			}
+		}
+
+		return resp.StatusCode, cookie
+	}
+	for _, c := range []struct{ method, ctype, body string }{
+		{"POST", "", body}, {"POST", "text/plain", body}, {"POST", "text/plain; charset=utf-8", body}, {"POST", "application/x-www-form-urlencoded", body},
+		{"POST", "application/x-www-form-urlencoded", form}, {"POST", "multipart/form-data; boundary=x", body}, {"POST", "application/jsonx", body},
+		{"POST", "text/json", body}, {"POST", "application/octet-stream", body},
+		{"GET", "application/json", body}, {"PUT", "application/json", body}, {"DELETE", "application/json", body}, {"PATCH", "application/json", body},
+	} {
+		st, cookie := try(c.method, c.ctype, c.body)
+		rep.Eval(true, "login-content-type|"+c.method+"|"+c.ctype+"|"+fmt.Sprint(len(c.body)))
+		rep.Class("logins_with_right_credentials_but_another_method_or_content_type")
+		opened := cookie != "" && c11Raw(in.WebPort, "GET", "/control/status", map[string]string{"Cookie": "agh_session=" + cookie}, "").Status == 200
+		if st == 200 || opened {
+			kind := "content-type"
+			if c.method != "POST" {
+				kind = "method"
+			}
+			rep.Violate("login-accepted:wrong-"+kind, fmt.Sprintf("%s /control/login with Content-Type %q and the right credentials in the body answered %d; a session was created: %v", c.method, c.ctype, st, opened),
+				map[string]any{"method": c.method, "content_type": c.ctype, "status": st})
+
+			return
+		}
+	}
+	// Positive control.
+	if st, cookie := try("POST", "application/json", body); st != 200 || cookie == "" {
+		rep.Inconcl(fmt.Sprintf("login-content-type phase: the declared form of the login call is not accepted (%d)", st))
 	}
 }
 
